@@ -88,6 +88,12 @@ for n in (0, 1, 2, 3):
         for reqs in itertools.product(subsets(alpha + ["z"]), repeat=n):
             cases += 1
             valid += check(list(refs), list(reqs), failures)
+# reference names that are easy to special-case: the default "" (a stage created without a ref_id), a blank, a name that is a
+# prefix of another -- two stages sharing any of them are duplicates like any other
+for odd in (["", ""], ["", "a", ""], [" ", " "], ["a", "ab", "a"], ["", "a"], ["a", "ab"]):
+    for reqs in itertools.product([set(), {odd[0]}], repeat=len(odd)):
+        cases += 1
+        valid += check(list(odd), [set(q) for q in reqs], failures)
 refs4 = ["a", "b", "c", "d"]
 subs4 = subsets(refs4 + ["z"])
 if tier == "thorough":
@@ -100,4 +106,4 @@ for reqs in it4:
     valid += check(refs4, list(reqs), failures)
     if len(samples) < 3:
         samples.append({"refs": refs4, "reqs": [sorted(q) for q in reqs]})
-done(cases, valid, failures, "graphs with <= 3 stages exhaustively; 4 distinct stages: " + ("exhaustive" if tier == "thorough" else "20000 seeded samples"), samples)
+done(cases, valid, failures, "graphs with <= 3 stages exhaustively (+ empty / blank / prefix reference names); 4 distinct stages: " + ("exhaustive" if tier == "thorough" else "20000 seeded samples"), samples)
